@@ -47,6 +47,11 @@ def name_call(E, n, st, name):
     reg = E.reg
     if name in NOOP_FUNCS:
         yield st, SV(NULL, NONE); return
+    if name == "isinstance" and len(n.args) == 2:
+        for s1, o in E.ev(n.args[0], st):
+            if isinstance(o, Exc): yield s1, o; continue
+            yield s1, SV(SpecEval(E, s1, s1, {}).isinst(o, n.args[1]), BOOL)
+        return
     if name in reg.exc_parents:            # exception object construction (message text dropped)
         yield st, E.alloc(st, RefT(name), "exc"); return
     if name in ("any", "all") and len(n.args) == 1 and isinstance(n.args[0], ast.GeneratorExp):
@@ -128,6 +133,8 @@ def name_call(E, n, st, name):
 
 def decl_local_type(E, n):
     """Type of an empty-container display assigned to a local: taken from the contract's `locals` by line target."""
+    if getattr(n, "_decl_type", None) is not None:
+        return n._decl_type
     tgt = getattr(n, "_assign_target", None)
     if tgt == "@return" and E.cur_contract.returns:
         return E.ptype(E.cur_contract.returns)
@@ -199,6 +206,11 @@ def attr_call(E, n, st):
     # ---- receiver is a value
     for s1, recv in E.ev(f.value, st):
         if isinstance(recv, Exc): yield s1, recv; continue
+        ct0 = E.content_type(recv) if recv.ty.sort == Ref else None
+        if isinstance(ct0, DictT) and f.attr in ("setdefault", "get"):
+            for a in n.args[1:]:
+                if isinstance(a, (ast.List, ast.Dict)) and not (getattr(a, "elts", None) or getattr(a, "keys", None)):
+                    a._decl_type = ct0.v
         for s2, av in evargs(E, n, s1):
             if isinstance(av, Exc): yield s2, av; continue
             args, kw = av
